@@ -434,73 +434,77 @@ def _tail(ctx) -> None:
 
 
 def _empty(ctx) -> None:
+    """max()/min() over a sequence and x[0] reads in the display code happen only where the sequence is known to be non-empty -
+    decided on the symx event log (conditional expressions, short circuits, guard clauses and helpers are all path conditions)."""
+    from ..sites2 import standalone_interps
+    from ..symx import const, deep_subterms, flatten_conds, kw, show, single_element, subterms
     prog = ctx.prog
-    for f in _display_funcs(prog):
-        cfg = cfg_of(f)
-        for c in prog.calls_in(f):
-            if short(c.func) in ("max", "min") and len(c.args) == 1 and isinstance(c.args[0], (ast.GeneratorExp, ast.ListComp, ast.Name)) \
-                    and kwarg(c, "default") is None:
-                seq = c.args[0].generators[0].iter if not isinstance(c.args[0], ast.Name) else c.args[0]
-                seq_t = short(seq)
-                if seq_t.startswith("range(len(") and seq_t.endswith("))"):
-                    seq_t = seq_t[len("range(len("):-2]
-                par = prog.parent(c)
-                ok = isinstance(par, ast.IfExp) and par.body is c and short(par.test) == seq_t
-                ctx.ob("b.empty-guards", f, f"{short(c.func)}:{seq_t}", ok, f"`{short(c, 50)}` guarded by `if {seq_t}`", c,
-                       message=f"{f.qualname}: `{short(c, 60)}` raises ValueError when `{seq_t}` is empty (empty vector / zero-row table); "
-                               f"guard it with `... if {seq_t} else 0` or default=")
-        for sub in [x for x in walk_no_nested(f.node) if isinstance(x, ast.Subscript) and isinstance(x.slice, ast.Constant)
-                    and x.slice.value == 0 and isinstance(x.ctx, ast.Load)]:
-            seq_t = short(sub.value)
-            ok, why = _nonempty_guard(prog, f, sub, seq_t)
-            ctx.ob("b.empty-guards", f, f"first:{seq_t}", ok, f"`{short(sub)}` guarded ({why})", sub,
-                   message=f"{f.qualname}: `{short(sub)}` raises IndexError when `{seq_t}` is empty (e.g. a table with columns but zero rows)")
+    n = 0
+    for q, it in standalone_interps(prog).items():
+        f = prog.functions[q]
+        if f.module != "display":
+            continue
 
-
-def _nonempty_guard(prog, f: FuncInfo, sub: ast.Subscript, seq_t: str) -> Tuple[bool, str]:
-    # IfExp: X[0] ... if X else ...
-    node = sub
-    par = prog.parent(node)
-    while par is not None and not isinstance(par, ast.stmt):
-        if isinstance(par, ast.IfExp) and any(y is node for y in ast.walk(par.body)) and short(par.test) == seq_t:
-            return True, "conditional expression on the sequence"
-        if isinstance(par, ast.BoolOp) and isinstance(par.op, ast.And):
-            idx = next(i for i, x in enumerate(par.values) if any(y is node for y in ast.walk(x)))
-            if any(short(x) == seq_t for x in par.values[:idx]):
-                return True, "short-circuit on the sequence"
-        node = par
-        par = prog.parent(par)
-    cfg = cfg_of(f)
-    n = cfg.enclosing_stmt_node(prog, sub)
-    d = Defs(f)
-
-    def accepted(e: ast.AST) -> bool:
-        t = short(e)
-        if t in (seq_t, f"not {seq_t}"):
-            return True
-        # a flag defined as a size comparison `<count> > <bound>` (e.g. truncated = num_cols > MAX * 2)
-        if isinstance(e, ast.Name):
-            v = d.single(e.id)
-            if isinstance(v, ast.Compare) and len(v.ops) == 1 and isinstance(v.ops[0], (ast.Gt, ast.GtE)):
-                return True
-        # len(U) == 1 where U = set(<the sequence>)
-        if isinstance(e, ast.Compare) and len(e.ops) == 1 and isinstance(e.ops[0], ast.Eq) and isinstance(e.left, ast.Call) \
-                and short(e.left.func) == "len" and isinstance(e.comparators[0], ast.Constant) and e.comparators[0].value == 1 \
-                and isinstance(e.left.args[0], ast.Name):
-            v = d.single(e.left.args[0].id)
-            if v is not None and short(v) == f"set({seq_t})":
-                return True
-        return False
-    for t in cfg.nodes:
-        if t.kind == "test" and cfg.dominates(t, n) and accepted(t.ast):
-            ts = [s for s, lab in t.succ if lab == "T"]
-            fs = [s for s, lab in t.succ if lab == "F"]
-            on_true = any(s is n or cfg.can_reach(s, n) for s in ts)
-            on_false = any(s is n or cfg.can_reach(s, n) for s in fs)
-            neg = short(t.ast).startswith("not ")
-            if (not neg and on_true and not on_false) or (neg and on_false and not on_true):
-                return True, f"dominated by `{short(t.ast)}`"
-    return False, ""
+        def nonempty(seq, conds) -> Optional[str]:
+            """why `seq` is non-empty under `conds` (None if not shown)"""
+            root = it.length_root(seq)
+            for t, pol in flatten_conds(conds):
+                if pol and (t == seq or it.length_root(t) == root):
+                    return "truth test of the sequence"
+                if t[0] == "cmp" and t[1] in ("Eq", "Gt", "GtE", "Lt", "LtE") and pol in (True, False):
+                    a, b, op = t[2], t[3], t[1]
+                    if not pol:
+                        op = {"Lt": "GtE", "LtE": "Gt", "Gt": "LtE", "GtE": "Lt", "Eq": "NotEq"}[op]
+                    lens = [x for x in subterms(a) if x[0] == "call" and x[1] == ("name", "len") and len(x[2]) == 1]
+                    for ln in lens:
+                        s0 = ln[2][0]
+                        same = it.length_root(s0) == root or s0 == seq
+                        of_set = s0[0] == "obj" and it.objs[s0[1]].kind == "set" and it.objs[s0[1]].init and \
+                            it.length_root(it.objs[s0[1]].init[0]) == root
+                        if not (same or of_set):
+                            continue
+                        if a == ln and b[0] == "const" and isinstance(b[2], int):
+                            if (op == "Eq" and b[2] >= 1) or (op == "Gt" and b[2] >= 0) or (op == "GtE" and b[2] >= 1):
+                                return f"size test `{show(t, it)[:40]}`"
+                        elif a == ln and op in ("Gt", "GtE"):
+                            return f"size test `{show(t, it)[:40]}` (a count compared with a positive bound)"
+                    # a size flag the sequence's own construction is selected by (truncated = n > 2 * MAX picks the shown columns)
+                    if op in ("Gt", "GtE") and pol and lens and any(x == t for x in deep_subterms(it, seq)):
+                        return f"size flag `{show(t, it)[:40]}` that selects how the sequence is built"
+            return None
+        for e in it.events:
+            if e.kind == "call" and e.term[1] in (("name", "max"), ("name", "min")) and len(e.term[2]) == 1 and kw(e.term, "default") is None:
+                arg = e.term[2][0]
+                seq = arg
+                if arg[0] == "obj" and it.objs[arg[1]].kind in ("genexp", "listcomp"):
+                    se = single_element(it, arg)
+                    if se is None or len(se[0]) != 1:
+                        continue
+                    lp = it.loops[se[0][0]]
+                    seq = lp.iter if lp.range is None else (lp.range[1][2][0] if lp.range[1][0] == "call" and lp.range[1][1] == ("name", "len")
+                                                            and len(lp.range[1][2]) == 1 else lp.iter)
+                    if se[1]:
+                        seq = arg            # a filtered generator can be empty even when its source is not
+                n += 1
+                why = nonempty(seq, e.conds)
+                ctx.ob("b.empty-guards", f, f"{e.term[1][1]}:{n}", why is not None, f"`{show(e.term, it)[:50]}` guarded ({why})", e.node,
+                       message=f"{f.qualname}: `{show(e.term, it)[:60]}` raises ValueError when `{show(seq, it)[:40]}` is empty (empty vector / "
+                               f"zero-row table); guard it with `... if <seq> else 0` or default=")
+            if e.kind == "index" and e.term[2] == const(0):
+                seq = e.term[1]
+                # tuple-unpacked results of calls and fixed-shape values are not sequences that can be empty
+                root_ = seq
+                while root_[0] == "sub":
+                    root_ = root_[1]
+                if seq[0] in ("call", "tuple") or (root_[0] == "attr" and root_[2] == "shape") or root_[0] in ("call", "tuple"):
+                    continue
+                n += 1
+                why = nonempty(seq, e.conds)
+                ctx.ob("b.empty-guards", f, f"first:{n}", why is not None, f"`{show(e.term, it)[:40]}` guarded ({why})", e.node,
+                       message=f"{f.qualname}: `{show(e.term, it)[:50]}` raises IndexError when `{show(seq, it)[:40]}` is empty (e.g. a table "
+                               f"with columns but zero rows)")
+    if n == 0:
+        raise AnalysisError("display code: no max()/min()/x[0] site found")
 
 
 # --------------------------------------------------------------------------------------------- c
@@ -621,8 +625,12 @@ def _footer(ctx) -> None:
             problems.append("homogeneity of the dtypes is not decided over all columns")
         for e in gi.events:
             if e.kind == "call" and e.term[1][0] == "attr" and e.term[1][2] == "replace" and e.term[1][1] in [c.term for c in calls]:
-                for t in subterms(e.term[2][1]) if len(e.term[2]) > 1 else []:
-                    if t[0] == "sub" and t[2] == const(0) and t[1] != allv:
+                firsts = []
+                for ft in subterms(e.term[2][1]) if len(e.term[2]) > 1 else []:
+                    if ft[0] == "fstr":
+                        firsts += [p_[1] for p_ in ft[1] if p_[0] == "fmt" and p_[1][0] == "sub" and p_[1][2] == const(0)]
+                for t in firsts:
+                    if t[1] != allv:
                         problems.append(f"the single-dtype footer shows `{show(t, gi)[:60]}`, not a dtype from the list over ALL columns (a "
                                         f"DISPLAYED column's dtype: a hidden column of another dtype would be misstated)")
     seen = set()
@@ -641,78 +649,122 @@ def _halvings(e: ast.AST) -> Optional[int]:
     return n
 
 
+def _term_halvings(t) -> Optional[int]:
+    """number of `// 2` applied on top of a budget term (max(1, x) clamps are transparent)"""
+    n = 0
+    while True:
+        if t[0] == "call" and t[1] == ("name", "max") and len(t[2]) == 2:
+            rest = [a for a in t[2] if a[0] != "const"]
+            if len(rest) != 1:
+                return n
+            t = rest[0]
+        elif t[0] == "bin" and t[1] == "FloorDiv" and t[3] == ("const", "int", 2):
+            n += 1
+            t = t[2]
+        else:
+            return n
+
+
 def _preview(ctx) -> None:
+    """Decided on symx terms: the preview is head K + ['...'] + tail K iff len > 2K else everything (same K); K is the row budget
+    halved exactly once on every path (global default inside _format_column / per-table override in the caller)."""
+    from ..sites2 import interp_of, leaves_with_conds
+    from ..symx import NONE as SNONE
+    from ..symx import const, kw, show, subterms
     prog = ctx.prog
     f = prog.func("display._format_column")
+    it = interp_of(prog, f)
+    P = ("param", f.params[1])
+    vals = ("attr", ("param", f.params[0]), "_underlying")
     problems = []
-    k = f.params[1]
-    d = Defs(f)
-    valsv = [n for n, lst in d.assigns.items() if any(v is not None and short(v) == f"{f.params[0]}._underlying" for v, _, _ in lst)]
-    if not valsv:
-        problems.append("the previewed values are not the column's storage")
-        vals = "?"
+    # the preview: a conditional term whose test is len(vals) > K * 2
+    previews = []
+    for lp in it.loops.values():
+        if lp.iter is not None and lp.iter[0] == "ifexp":
+            previews.append(lp.iter)
+    for e in it.events:
+        for t in subterms(e.term):
+            if t[0] == "ifexp" and t not in previews:
+                previews.append(t)
+    pv = None
+    K = None
+    ln = ("call", ("name", "len"), (vals,), ())
+    for t in previews:
+        c = t[1]
+        if c[0] == "cmp" and c[1] == "Gt" and c[2] == ln and c[3][0] == "bin" and c[3][1] == "Mult" and const(2) in (c[3][2], c[3][3]):
+            pv = t
+            K = c[3][3] if c[3][2] == const(2) else c[3][2]
+            break
+    if pv is None:
+        problems.append("the preview is not truncated exactly when len(values) > 2 * k (k = the preview size)")
     else:
-        vals = valsv[0]
-    sel = [s_ for s_ in f.body if isinstance(s_, ast.If) and short(s_.test) in (f"len({vals}) > {k} * 2", f"len({vals}) > 2 * {k}")]
-    if not sel:
-        problems.append(f"the preview is not truncated exactly when len(values) > 2 * {k}")
-    else:
-        tb = [x for x in sel[0].body if isinstance(x, ast.Assign)]
-        fb = [x for x in sel[0].orelse if isinstance(x, ast.Assign)]
-        if len(tb) != 1 or len(fb) != 1 or short(tb[0].targets[0]) != short(fb[0].targets[0]):
-            problems.append("the two branches do not build the same preview variable")
-        else:
-            if short(tb[0].value) != f"list({vals}[:{k}]) + ['...'] + list({vals}[-{k}:])":
-                problems.append(f"the truncated preview is `{short(tb[0].value, 80)}`, expected head {k} + ['...'] + tail {k} (same size on both sides)")
-            if short(fb[0].value) != f"list({vals})":
-                problems.append(f"short data is previewed as `{short(fb[0].value)}`, expected every row")
+        def seq_of(x):
+            if x[0] == "obj" and it.objs[x[1]].kind == "list" and isinstance(it.objs[x[1]].node, ast.Call) and len(it.objs[x[1]].init) == 1:
+                return it.objs[x[1]].init[0]
+            if x[0] == "call" and x[1] == ("name", "list") and len(x[2]) == 1:
+                return x[2][0]
+            return x
+        full, short_ = pv[2], pv[3]
+        head = ("sub", vals, ("slice", SNONE, K, SNONE))
+        tail = ("sub", vals, ("slice", ("un", "USub", K), SNONE, SNONE))
+        okh = full[0] == "bin" and full[1] == "Add" and full[2][0] == "bin" and full[2][1] == "Add" \
+            and seq_of(full[2][2]) == head and seq_of(full[3]) == tail \
+            and full[2][3][0] == "obj" and it.objs[full[2][3][1]].init == (const("..."),)
+        if not okh:
+            problems.append(f"the truncated preview is `{show(full, it)[:90]}`, expected head k + ['...'] + tail k (same size on both sides)")
+        if seq_of(short_) != vals:
+            problems.append(f"short data is previewed as `{show(short_, it)[:50]}`, expected every row")
     ctx.ob("d.preview", f, "symmetric", not problems, "head k + '...' + tail k iff len > 2k, else everything", f.node, message="; ".join(problems))
     # halving count per path
     problems = []
-    inside = 0          # halvings applied inside _format_column to the PARAMETER value
-    default_h = None
-    for s in walk_stmts(f.body):
-        if isinstance(s, ast.Assign) and short(s.targets[0]) == k:
-            v = s.value
-            if isinstance(v, ast.Call) and short(v.func) == "max":
-                v = [a for a in v.args if not isinstance(a, ast.Constant)][0]
-            names = {n.id for n in ast.walk(v) if isinstance(n, ast.Name)}
-            h = _halvings(v)
-            if "_REPR_ROWS_DEFAULT" in names:
+    inside = default_h = None
+
+    def budget_paths(t, n=0):
+        """(source term, number of // 2 applied to it) for every way the budget term can be computed"""
+        while True:
+            if t[0] == "call" and t[1] == ("name", "max") and len(t[2]) == 2 and len([a for a in t[2] if a[0] != "const"]) == 1:
+                t = [a for a in t[2] if a[0] != "const"][0]
+            elif t[0] == "bin" and t[1] == "FloorDiv" and t[3] == ("const", "int", 2):
+                n += 1
+                t = t[2]
+            elif t[0] == "ifexp":
+                return budget_paths(t[2], n) + budget_paths(t[3], n)
+            else:
+                return [(t, n)]
+    if K is not None:
+        for leaf, h in budget_paths(K):
+            if any(x[0] == "name" and x[1] == "_REPR_ROWS_DEFAULT" for x in subterms(leaf)):
                 default_h = h
-            elif k in names:
-                inside += h
-    # any other variable derived from k by halving and used in the preview?
+            elif any(x == P for x in subterms(leaf)):
+                inside = h
     if default_h is None:
         problems.append("the global row budget is not used as the default")
-    elif default_h + inside != 1:
-        problems.append(f"the global row budget is halved {default_h + inside} time(s) on the way to the preview size (must be exactly once)")
+    elif default_h != 1:
+        problems.append(f"the global row budget is halved {default_h} time(s) on the way to the preview size (must be exactly once)")
+    if inside is None:
+        inside = 0
     g = prog.func("display._repr_table")
-    dg = Defs(g)
-    passed = [c for c in prog.calls_in(g) if short(c.func) == "_format_column"]
-    for c in passed:
-        a = kwarg(c, k) or (c.args[1] if len(c.args) > 1 else None)
+    gi = interp_of(prog, g)
+    passed = [e for e in gi.events if e.kind == "call" and e.term[1] == ("name", "_format_column")]
+    for e in passed:
+        a = kw(e.term, f.params[1]) if kw(e.term, f.params[1]) is not None else (e.term[2][1] if len(e.term[2]) > 1 else None)
         if a is None:
             continue
-        for v in (dg.values(a.id) if isinstance(a, ast.Name) else [a]):
-            if isinstance(v, ast.Constant) and v.value is None:
+        for leaf, h in budget_paths(a):
+            if leaf == SNONE:
                 continue
-            h = _halvings(v)
-            names = {short(n) for n in ast.walk(v) if isinstance(n, ast.Attribute)}
             if h + inside != 1:
-                problems.append(f"a per-table row budget `{short(v)}` is halved {h + inside} time(s) in total (caller {h} + _format_column "
-                                f"{inside}); must be exactly once: tables with a _repr_rows override (peek) would show too few rows")
+                problems.append(f"a per-table row budget `{show(leaf, gi)[:50]}` is halved {h + inside} time(s) in total (caller {h} + "
+                                f"_format_column {inside}); must be exactly once: tables with a _repr_rows override (peek) would show too few rows")
+    seen = set()
+    problems = [p_ for p_ in problems if not (p_ in seen or seen.add(p_))]
     ctx.ob("d.preview", f, "one-halving", not problems, "row budget // 2 exactly once on every path", f.node, message="; ".join(problems))
-    # table body rows: all formatted columns have the same number of lines; ellipsis column matches
-    ok = False
-    for n in walk_no_nested(g.node):
-        if isinstance(n, ast.ListComp) and isinstance(n.elt, ast.Call) and short(n.elt.func) == "_format_column" \
-                and len(n.generators) == 1 and not n.generators[0].ifs and isinstance(n.generators[0].iter, ast.Name) and n.elt.args:
-            a0 = n.elt.args[0]
-            kw = kwarg(n.elt, k) or (n.elt.args[1] if len(n.elt.args) > 1 else None)
-            if isinstance(a0, ast.Subscript) and isinstance(a0.slice, ast.Name) and a0.slice.id == n.generators[0].target.id \
-                    and isinstance(kw, ast.Name):
-                ok = True
+    # table body rows: every displayed column is formatted with the same preview size
+    ok = bool(passed)
+    for e in passed:
+        a = kw(e.term, f.params[1]) if kw(e.term, f.params[1]) is not None else (e.term[2][1] if len(e.term[2]) > 1 else None)
+        if a is None or not e.loops or any(x[0] in ("elem", "idx") and x[-1] in e.loops for x in subterms(a)):
+            ok = False
     ctx.ob("d.preview", g, "same-budget-all-columns", ok, "every displayed column is formatted with the same preview size", g.node,
            message="_repr_table does not format every displayed column with the same preview size")
 
